@@ -1,26 +1,151 @@
-//! C04: not implemented yet.
+//! C04: IR passes keep the IR well-formed.
+//! Monitor (hook H1): inside the real compile pipeline the harness runs random sequences of
+//! registered passes one at a time; `Context::verify()` with SSA-dominance checking runs
+//! before and after every pass (PassManager::run does it), panics are caught and attributed to
+//! the pass that was running.
 use crate::common::*;
+use crate::engine::*;
+use crate::irhook::*;
+use crate::swrun::*;
 use crate::{Plan, Prop};
+use rand::Rng;
+use serde_json::{json, Value};
+use std::panic::AssertUnwindSafe;
 
 pub static META: PropertyMeta = PropertyMeta {
     id: "C04",
     level: "exploration",
-    rule: "not implemented",
-    assumptions: &[],
-    floor_evaluations: 1,
-    floor_nontrivial: 2,
-    required_counters: &[],
+    rule: "IR modules of SwGen programs (and of the sway-ir/tests and e2e corpus sources in thorough) x pass sequences: each registered transform alone, each preceded by inline / mem2reg, and random sequences of 2..16 registered transforms, always after lower-init-aggr; after every pass the IR verifier runs with SSA dominance checking; an evaluation = one (module, sequence); non-trivial = at least two passes of the sequence modified the IR; distinct = hash of (source, sequence)",
+    assumptions: &[
+        "Context::verify (sway-ir/src/verify.rs) is the definition of well-formed; a change that weakens the verifier itself is out of this monitor's sight",
+        "IrError::InvalidPassModified (bookkeeping of the `modified` flag) is not a well-formedness failure and is only counted",
+    ],
+    floor_evaluations: 200,
+    floor_nontrivial: 50,
+    required_counters: &["verifier_runs", "passes_modified_ir", "sequences_random", "sequences_single"],
 };
 
 pub static PROP: Prop = Prop {
     meta: &META,
-    plan: |_t| Plan { nshards: 1, budget_s: 1.0, mem_gib: 0 },
-    shard: |_ctx| {
-        let mut r = ShardResult::default();
-        r.harness_fault = Some("not implemented".into());
-        r
-    },
-    replay: crate::no_replay,
+    plan: |t| Plan { nshards: 16, budget_s: t.pick(55.0, 900.0), mem_gib: 6 },
+    shard,
+    replay,
     extra: crate::no_extra,
     subcommand: crate::no_subcommand,
 };
+
+fn gen_sequence(rng: &mut rand::rngs::StdRng, k: u64, res: &mut ShardResult) -> Vec<String> {
+    let mut seq = vec!["lower-init-aggr".to_string()];
+    let pick = |rng: &mut rand::rngs::StdRng| TRANSFORMS[rng.gen_range(1..TRANSFORMS.len())].to_string();
+    match k % 4 {
+        0 => {
+            res.count("sequences_single");
+            seq.push(pick(rng));
+        }
+        1 => {
+            res.count("sequences_after_inline_or_mem2reg");
+            seq.push(if rng.gen_bool(0.5) { "inline".into() } else { "mem2reg".into() });
+            seq.push(pick(rng));
+        }
+        _ => {
+            res.count("sequences_random");
+            let n = rng.gen_range(2..=16);
+            for _ in 0..n {
+                seq.push(pick(rng));
+            }
+        }
+    }
+    // the mandatory lowering passes follow, as in the real pipeline
+    if rng.gen_bool(0.5) {
+        seq.extend(MANDATORY_FUEL.iter().map(|s| s.to_string()));
+    }
+    seq
+}
+
+pub fn error_class(msg: &str) -> String {
+    // verifier message with names and numbers abstracted
+    bucket(msg)
+}
+
+fn run_one(am: &mut Amortised, src: &str, seq: &[String], res: &mut ShardResult, replay: Value) {
+    res.evaluations += 1;
+    let cfg = HookCfg { replace: Some(seq.to_vec()), dominance: true, rounds: Some(1), ..Default::default() };
+    let (r, log) = with_hook(cfg, false, || catch(AssertUnwindSafe(|| am.compile("gencase", src, Profile::Debug))));
+    let _ = std::fs::remove_dir_all(am.last_dir());
+    if !log.invoked {
+        // rejected before IR generation (or IR generation itself failed)
+        res.count("not_reached_ir");
+        return;
+    }
+    res.add("verifier_runs", log.ran.len() as u64 * 2);
+    let modified = log.ran.iter().filter(|(_, m)| *m).count();
+    res.add("passes_modified_ir", modified as u64);
+    for (p, m) in &log.ran {
+        res.count(&format!("ran.{p}"));
+        if *m {
+            res.count(&format!("modified.{p}"));
+        }
+    }
+    if modified >= 2 {
+        res.note_nontrivial(hash64(format!("{src}{seq:?}").as_bytes()));
+    }
+    match r {
+        Err((loc, msg)) => {
+            let pass = log.current.clone().unwrap_or_else(|| "<after passes>".into());
+            if log.current.is_none() {
+                // panic in the backend after the passes: not about IR well-formedness
+                res.count("backend_panics_after_passes");
+                return;
+            }
+            res.violation(format!("pass-panic:{}", panic_signature(&loc, &msg)), format!("pass `{pass}` panicked at {loc}: {} (sequence {seq:?})", msg.chars().take(160).collect::<String>()), replay);
+        }
+        Ok(_) => {
+            if let Some((pass, err)) = &log.ir_error {
+                if err.contains("returned") && err.contains("modified") {
+                    res.count("invalid_pass_modified_reports");
+                    return;
+                }
+                res.violation(format!("verify-failed-after:{pass}:{}", error_class(err)), format!("IR verifier rejected the module after pass `{pass}`: {} (sequence {seq:?})", err.chars().take(200).collect::<String>()), replay);
+            } else if res.samples.len() < 2 {
+                res.sample(json!({"sequence": seq, "passes_that_modified": log.ran.iter().filter(|(_, m)| *m).map(|(p, _)| p.clone()).collect::<Vec<_>>(), "source_head": src.lines().take(12).collect::<Vec<_>>()}));
+            }
+        }
+    }
+}
+
+fn shard(ctx: &ShardCtx) -> ShardResult {
+    let mut res = ShardResult::default();
+    let mut am = Amortised::new(&ctx.work());
+    if let Err(e) = am.warm() {
+        res.harness_fault = Some(format!("std does not compile: {e}"));
+        return res;
+    }
+    let per_program = ctx.tier.pick(8u64, 24u64);
+    let mut i = ctx.first_index;
+    let clock = ctx.clock();
+    while clock.left() {
+        // case i = (program i / per_program, sequence i % per_program)
+        let pi = i / per_program;
+        let mut scratch = ShardResult::default();
+        let case = case_at(ctx.seed ^ 0x0c04, ctx.shard, pi, 1, &mut scratch);
+        let mut rng = ctx.rng(i ^ 0x5eed_0000);
+        let seq = gen_sequence(&mut rng, i, &mut res);
+        let replay = json!({"source": case.src, "sequence": seq});
+        ctx.begin_case(i, &format!("// origin: {:?} sequence {seq:?}\n{}", case.origin, case.src), &res);
+        run_one(&mut am, &case.src, &seq, &mut res, replay);
+        ctx.end_case();
+        i += 1;
+    }
+    res
+}
+
+fn replay(case: &Value) -> ShardResult {
+    let mut res = ShardResult::default();
+    let work = work_dir("C04").join("replay");
+    clean_dir(&work);
+    let mut am = Amortised::new(&work);
+    let src = case["source"].as_str().unwrap_or("").to_string();
+    let seq: Vec<String> = serde_json::from_value(case["sequence"].clone()).unwrap_or_default();
+    run_one(&mut am, &src, &seq, &mut res, case.clone());
+    res
+}
